@@ -100,6 +100,16 @@ CLAIMS = {
          "(induction on the type code, Hand/Serde.v); the keys are exactly the documented names in order. The implementation's serde_json round trip is run on all scalar types, f32/f64 and nestings to depth 3: every part "
          "bit for bit, and the key sequence of the JSON text against the model. Trusted: serde_derive's and serde_json's semantics as modelled (map with named entries), the leaf float codec (values restricted to those "
          "a plain float round-trips through the same build)."),
+ 'C12': ("Coq proof on a hand model of linalg.rs for ANY size: forward and back substitution solve the stored triangular systems over any commutative ring with division by units -- instantiated for the dual number types, so the identity holds in every derivative part; singular pivot columns are reported; model executed in Coq bit for bit against the implementation; defining identities on the implementation; one open finding (Jacobi)",
+         "Hand model coq/ND/Hand/LinAlg.v (LU::new with partial pivoting on the real part, solve, determinant, inverse, norm; every loop a fold over the same index range, every assignment a list update). Theorems (Props/C12.v, 7), for every "
+         "size n: over any number type whose + - * form a commutative ring and whose division satisfies (x/y)*y = x for units, forward substitution with the stored row order returns y with y_i + sum_{k<i} a_ik y_k = b_{p i}, back "
+         "substitution returns x with sum_{k>=i} a_ik x_k = y_i, and LU::solve is their composition; Dual, Dual2, Dual3, HyperDual, HyperHyperDual over R are such rings with the numbers of non-zero real part as units -- so L(Ux) = Pb holds "
+         "in the real part and in EVERY derivative part at once (stated for Dual); a pivot column whose real parts all vanish makes LU::new return the error. NOT proved: that the elimination loop yields P A = L U, determinant, inverse, "
+         "the Jacobi iteration, nalgebra's decompositions. These are decided by execution: the model is evaluated in Coq on binary64 on 12 types, sizes 1..6, every pivoting path, and must equal the implementation bit for bit (solve, "
+         "determinant, inverse, norm; singular inputs); and the defining identities A x = b, A A^-1 = I, determinant vs 60-digit elimination on jets (Jacobi's formula), A V = V diag(lambda), V^T V = I, ascending lambda (Hellmann-Feynman "
+         "is their first-order part) are checked in every part on the crate's routines and on nalgebra's (solve, try_inverse, determinant, symmetric_eigen over the four field-compatible types), with a backward-error scale |L||U||x| "
+         "computed in jet arithmetic. OPEN FINDING (listed): jacobi_eigenvalue tests convergence on real parts only -- symmetric matrices with a diagonal real part and non-diagonal derivative parts violate A V = V diag(lambda) in the "
+         "derivative parts; only that matrix class is suppressed."),
  'C13': ("Coq proof on a hand-written model of the SubsetOf/SupersetOf impls (values with optional parts, abstract leaf casts): widen-then-narrow = identity, checked narrowing succeeds iff membership, value = per-part cast, presence preserved; model executed in Coq against the implementation",
          "Hand model (coq/ND/Hand/Subset.v) of to_superset / from_superset / from_superset_unchecked / is_in_subset / float lift and extract on Dual, Dual2, DualVec, Dual2Vec (parts present or absent), for arbitrary leaf "
          "conversions. Theorems (Props/C13.v, 7, axiom-free): for any widen/narrow with narrow (widen a) = a and in_sub (widen a) = true: narrowing a widened value is the identity (absent parts included), a widened value is a member, "
@@ -131,7 +141,7 @@ for pid in sorted(CLAIMS):
                    "engine": "coq-generated-model", "technique": tech,
                    "level_claimed": {"category": "proof", "design_ref": "DESIGN.md section 4 (%s)" % pid, "text": text},
                    "level_note": TB})
-na = [{"property_id": p['id'], "reason": "check under construction in this round (translator, proofs and correspondence exist for the shared core); not yet claimed"}
+na = [{"property_id": p['id'], "reason": "not claimed"}
       for p in props if p['id'] not in CLAIMS]
 m = {"version": 1, "setup_cmd": "./setup",
      "hooks": {"guard": "num_dual_verif", "enable": "no hooks are needed: every observation goes through the public API (RUSTFLAGS=\"--cfg num_dual_verif\" reserved)",
